@@ -36,6 +36,7 @@ def excName : Exc → String
   | .typeError => "TypeError"
   | .attributeError => "AttributeError"
   | .zeroDivisionError => "ZeroDivisionError"
+  | .noSuchProcess => "NoSuchProcess"
 
 def jOut : Out → Json
   | .ok v n => jObj [("kind", "ok"), ("nreads", jNat n), ("val", jVal v)]
@@ -138,7 +139,7 @@ def handle (d : DSt) (j : Json) : R (DSt × Json) := do
       ("spec", jObj [("sys", jPRes jRats (.ok (Spec.seconds tck snf total))),
                      ("per", jPRes (jList jRats) (.ok (cpus.map (Spec.seconds tck snf))))])])
   if op == "times" then
-    -- arbitrary bytes (possibly malformed): model only
+    -- arbitrary bytes (possibly malformed): the model AND the byte-level specification (Spec.lineOutcome / linesOutcome)
     let vlen ← natF j "vlen"
     let tck ← natF j "tck"
     let data ← bytesF j "data"
@@ -253,7 +254,8 @@ def handle (d : DSt) (j : Json) : R (DSt × Json) := do
       match e.getArr? with
       | .ok #[u, s] => do pure ((← asNat u), (← asNat s))
       | _ => .error "times entry must be [utime, stime]") j "times"
-    let p : PCall := ⟨obj, interval, ncpu, timer, times⟩
+    let vanish ← optF asNat j "vanish"
+    let p : PCall := ⟨obj, interval, ncpu, timer, times, vanish⟩
     let (s', out) := pstep cfg tck d.pst p
     return ({ d with pst := s', phist := d.phist ++ [p] },
       jObj [("model", jPOut out), ("spec", jPOut (Spec.pexpected tck d.phist p)),
